@@ -33,6 +33,15 @@ Proof.
   intro H. replace (S i) with (i + length [c]) by (simpl; lia). apply sfx_app. exact H.
 Qed.
 
+Ltac len_norm H := repeat (rewrite app_length in H || (progress cbn [length] in H)).
+Ltac sfx_lens := repeat match goal with
+  | H : sfx ?s ?i ?r |- _ =>
+      lazymatch goal with
+      | _ : length s = i + length r |- _ => fail
+      | _ => let L := fresh "L" in pose proof (sfx_len s i r H) as L
+      end
+  end.
+
 Lemma sfx_uniq s i j r : sfx s i r -> sfx s j r -> i = j.
 Proof. intros H1 H2. apply sfx_len in H1, H2. lia. Qed.
 
@@ -316,4 +325,468 @@ Proof.
   intros H Hps Hw Hi. apply props_loop_app; auto.
   apply sfx_len in H. rewrite app_length in H. pose proof (render_props_length ps).
   unfold fuel_at. lia.
+Qed.
+
+(* ---------------------------------------------- consumeComment / skipComment *)
+Lemma comment_scan_step s i c t f :
+  sfx s i (c :: t) -> (c =? 0)%N = false -> pfx_close (c :: t) = false ->
+  comment_scan (S f) s i = comment_scan f s (S i).
+Proof.
+  intros H Hc Hp. cbn [comment_scan]. rewrite (sfx_peek _ _ _ H). simpl hd. rewrite Hc.
+  destruct (c =? c_dash)%N eqn:D0; [|reflexivity].
+  rewrite (sfx_peek1 _ _ _ _ H). destruct t as [|c1 t]; [reflexivity|]. simpl hd.
+  destruct (c1 =? c_dash)%N eqn:D1; [|reflexivity].
+  pose proof (sfx_cons _ _ _ _ H) as H'. rewrite (sfx_peek1 _ _ _ _ H').
+  destruct t as [|c2 t]; [reflexivity|]. simpl hd. simpl in Hp. rewrite D0, D1 in Hp. simpl in Hp.
+  rewrite Hp. reflexivity.
+Qed.
+
+Lemma pfx_close_app c b r :
+  pfx_close (c :: b) = false -> pfx_close (c :: b ++ w_cclose ++ r) = false.
+Proof.
+  destruct b as [|c1 [|c2 b]]; simpl; auto; intros _.
+  - rewrite andb_false_r. reflexivity.
+  - rewrite andb_false_r. reflexivity.
+Qed.
+
+Lemma comment_scan_app s : forall b fuel i r,
+  sfx s i (b ++ w_cclose ++ r) -> comment_okb b = true -> length b < fuel ->
+  exists j, comment_scan fuel s i = Ok tt j /\ sfx s j (w_cclose ++ r).
+Proof.
+  induction b as [|c b IH]; intros [|f] i r H Hb Hf; try (simpl in Hf; lia).
+  - simpl in H. cbn [comment_scan]. rewrite (sfx_peek _ _ _ H). simpl.
+    rewrite (sfx_peek1 _ _ _ _ H). simpl.
+    pose proof (sfx_cons _ _ _ _ H) as H'. rewrite (sfx_peek1 _ _ _ _ H'). simpl.
+    exists i. auto.
+  - cbn [comment_okb] in Hb. apply andb_true_iff in Hb as [Hb Hb']. apply andb_true_iff in Hb as [Hc Hp].
+    change ((c :: b) ++ w_cclose ++ r) with (c :: b ++ w_cclose ++ r) in H.
+    rewrite (comment_scan_step s i c (b ++ w_cclose ++ r) f H).
+    + apply IH; auto; [eapply sfx_cons; exact H | simpl in Hf; lia].
+    + destruct (c =? 0)%N; [discriminate | reflexivity].
+    + apply pfx_close_app. destruct (pfx_close (c :: b)); [discriminate | reflexivity].
+Qed.
+
+Lemma consume_comment_app s i b r :
+  sfx s i (c_lt :: c_bang :: b ++ w_cclose ++ r) -> comment_okb b = true ->
+  exists j, consume_comment s i = Ok tt j /\ sfx s j r.
+Proof.
+  intros H Hb. unfold consume_comment. rewrite (consume_app _ _ _ _ H).
+  pose proof (sfx_cons _ _ _ _ H) as H1. rewrite (consume_app _ _ _ _ H1).
+  pose proof (sfx_cons _ _ _ _ H1) as H2.
+  destruct (comment_scan_app s b (fuel_at s (S (S i))) _ r H2 Hb) as [i3 [E3 H3]].
+  { apply sfx_len in H2. rewrite app_length in H2. unfold fuel_at. lia. }
+  rewrite E3. simpl in H3. rewrite (consume_app _ _ _ _ H3).
+  pose proof (sfx_cons _ _ _ _ H3) as H4. rewrite (consume_app _ _ _ _ H4).
+  pose proof (sfx_cons _ _ _ _ H4) as H5. rewrite (consume_app _ _ _ _ H5).
+  exists (S (S (S i3))). split; [reflexivity|]. eapply sfx_cons; exact H5.
+Qed.
+
+Lemma skip_comment_app s i b r :
+  sfx s i (c_lt :: c_bang :: b ++ w_cclose ++ r) -> comment_okb b = true ->
+  exists j, skip_comment s i = Ok true j /\ sfx s j r.
+Proof.
+  intros H Hb. unfold skip_comment. rewrite (sfx_peek _ _ _ H). simpl.
+  rewrite (sfx_peek1 _ _ _ _ H). simpl.
+  destruct (consume_comment_app _ _ _ _ H Hb) as [j [E Hj]]. rewrite E. exists j. auto.
+Qed.
+
+(* not a comment: the text does not start with "<!" *)
+Lemma skip_comment_no s i r :
+  sfx s i r -> (hd0 r =? c_lt)%N && (hd0 (tl r) =? c_bang)%N = false ->
+  skip_comment s i = Ok false i.
+Proof.
+  intros H Hr. unfold skip_comment. rewrite (sfx_peek _ _ _ H).
+  destruct (hd0 r =? c_lt)%N eqn:E; [|reflexivity]. simpl in Hr.
+  destruct r as [|c r]; [discriminate|]. rewrite (sfx_peek1 _ _ _ _ H). simpl in Hr. rewrite Hr.
+  reflexivity.
+Qed.
+
+(* --------------------------------------------------------- content trimming *)
+Lemma trim_end_app s b x cur : forall w r e,
+  sfx s b (x ++ w ++ r) -> sfx s e r -> x <> [] -> is_space (last x 0%N) = false ->
+  forallb is_space w = true ->
+  exists e', trim_end s e cur = Ok e' cur /\ sfx s e' (w ++ r).
+Proof.
+  induction w as [|c w IH] using rev_ind; intros r e Hb He Hx Hl Hw.
+  - simpl in Hb. destruct (exists_last Hx) as [x' [l ->]]. rewrite last_last in Hl.
+    rewrite <- app_assoc in Hb. simpl in Hb.
+    destruct (sfx_before _ _ _ _ _ _ Hb He) as [e0 [-> H0]].
+    cbn [trim_end]. rewrite (sfx_peek _ _ _ H0). simpl hd. rewrite Hl. exists (S e0). auto.
+  - rewrite forallb_app in Hw. apply andb_true_iff in Hw as [Hw Hc]. simpl in Hc.
+    apply andb_true_iff in Hc as [Hc _].
+    assert (Hb' : sfx s b ((x ++ w) ++ c :: r)).
+    { repeat rewrite <- app_assoc in *. simpl in Hb. exact Hb. }
+    destruct (sfx_before _ _ _ _ _ _ Hb' He) as [e0 [-> H0]].
+    cbn [trim_end]. rewrite (sfx_peek _ _ _ H0). simpl hd. rewrite Hc.
+    destruct (IH (c :: r) e0) as [e' [E' H']]; auto.
+    { rewrite <- app_assoc in Hb'. exact Hb'. }
+    exists e'. rewrite <- app_assoc. simpl. auto.
+Qed.
+
+(* --------------------------------------------------------------- parseNode *)
+Scheme lnode_ind2 := Induction for lnode Sort Prop
+  with litems_ind2 := Induction for litems Sort Prop.
+Combined Scheme lnode_litems_ind from lnode_ind2, litems_ind2.
+
+Definition w_close (name : str) (r : str) : str := c_lt :: c_slash :: name ++ c_gt :: r.
+
+Lemma wf_head_inv name ws0 props :
+  wf_head name ws0 props = true ->
+  identb name = true /\ forallb is_white ws0 = true /\ forallb wf_prop props = true /\
+  (props = [] \/ ws0 <> []).
+Proof.
+  unfold wf_head. intro H. apply andb_true_iff in H as [H H4]. apply andb_true_iff in H as [H H3].
+  apply andb_true_iff in H as [H1 H2]. repeat split; auto.
+  destruct props; [left; reflexivity|]. destruct ws0; [discriminate|]. right. discriminate.
+Qed.
+
+(* what follows the name of a node is not an identifier character *)
+Lemma hd_after_name ws0 props c r :
+  forallb is_white ws0 = true -> (props = [] \/ ws0 <> []) -> is_id_char c = false ->
+  is_id_char (hd0 (ws0 ++ render_props props ++ c :: r)) = false.
+Proof.
+  intros Hw Hp Hc. destruct ws0 as [|a ws0].
+  - destruct Hp as [-> | Hp]; [simpl; exact Hc | congruence].
+  - simpl in *. apply andb_true_iff in Hw as [Hw _]. apply white_not_id_char. exact Hw.
+Qed.
+
+Lemma render_node_head n :
+  wf_node n = true -> exists c t, render_node n = c_lt :: c :: t /\ is_id_start c = true.
+Proof.
+  destruct n as [name ws0 props | name ws0 props wbody items]; simpl; intro H.
+  - apply wf_head_inv in H as [H _]. destruct name as [|c name]; [discriminate|].
+    simpl in H. apply andb_true_iff in H as [H _]. simpl. eauto.
+  - apply andb_true_iff in H as [H _]. apply andb_true_iff in H as [H _].
+    apply wf_head_inv in H as [H _]. destruct name as [|c name]; [discriminate|].
+    simpl in H. apply andb_true_iff in H as [H _]. simpl. eauto.
+Qed.
+
+(* items that may not start with text start with '<' once something starting with '<' follows *)
+Lemma hd_items_lt its X :
+  wf_items false its = true -> exists t, render_items its ++ c_lt :: X = c_lt :: t.
+Proof.
+  destruct its as [|b ws r|n ws r|t tr r]; simpl; intro H.
+  - eauto.
+  - eauto.
+  - apply andb_true_iff in H as [H _]. apply andb_true_iff in H as [H _].
+    destruct (render_node_head n H) as [c [t [-> _]]]. simpl. eauto.
+  - discriminate.
+Qed.
+
+(* the common part of parseNode: "<name ws0 props" up to '/' or '>' *)
+Lemma node_head_app s i name ws0 props c r :
+  sfx s i (c_lt :: name ++ ws0 ++ render_props props ++ c :: r) ->
+  wf_head name ws0 props = true -> (c = c_slash \/ c = c_gt) ->
+  exists i1 i2 i3 i4,
+    consume s i c_lt = Ok tt i1 /\ parse_identifier s i1 = Ok (Some name) i2 /\
+    skip_whites s i2 = Ok tt i3 /\ props_loop (fuel_at s i3) s i3 [] = Ok (pm_of props []) i4 /\
+    sfx s i4 (c :: r).
+Proof.
+  intros H Hh Hc. apply wf_head_inv in Hh as [Hn [Hw [Hps Hne]]].
+  assert (Hc1 : is_id_char c = false) by (destruct Hc; subst c; reflexivity).
+  assert (Hc2 : is_white c = false) by (destruct Hc; subst c; reflexivity).
+  assert (Hc3 : is_id_start c = false) by (destruct Hc; subst c; reflexivity).
+  exists (S i). pose proof (sfx_cons _ _ _ _ H) as H1.
+  destruct (parse_identifier_app _ _ _ _ H1 Hn) as [i2 [E2 H2]]; [apply hd_after_name; auto|].
+  destruct (skip_whites_app _ _ _ _ H2 Hw) as [i3 [E3 H3]].
+  { apply hd_props; auto. apply id_start_not_white. }
+  destruct (props_loop_app_at _ _ _ [] _ H3 Hps) as [i4 [E4 H4]]; auto.
+  exists i2, i3, i4. split; [eapply consume_app; exact H|]. auto.
+Qed.
+
+Lemma node_app :
+  (forall n, forall fuel s i r,
+      sfx s i (render_node n ++ r) -> wf_node n = true -> 2 * (length s - i) + 1 <= fuel ->
+      exists j, parse_node fuel s i = Ok (node_of n) j /\ sfx s j r) /\
+  (forall its, forall fuel s i w name props content children r ta,
+      sfx s i (w ++ render_items its ++ w_close name r) ->
+      forallb is_white w = true -> wf_items ta its = true -> (ta = true -> content = []) ->
+      identb name = true -> 2 * (length s - i) + 2 <= fuel ->
+      exists j, node_loop fuel s i name props content children
+                = Ok (Node name props (content ++ content_of its) (children ++ children_of its)) j
+                /\ sfx s j r).
+Proof.
+  apply lnode_litems_ind.
+  - (* LSelf *)
+    intros name ws0 props [|f] s i r H Hwf Hf; [lia|].
+    simpl in H. repeat (rewrite <- app_assoc in H; simpl in H).
+    destruct (node_head_app _ _ _ _ _ _ _ H Hwf (or_introl eq_refl)) as [i1 [i2 [i3 [i4 [E1 [E2 [E3 [E4 H4]]]]]]]].
+    unfold parse_node. cbn [parse_node_with]. rewrite E1, E2, E3.
+    unfold props_loop in E4. rewrite E4.
+    rewrite (sfx_peek _ _ _ H4). simpl hd. simpl N.eqb. cbv iota.
+    destruct (consume_word_app s [c_slash; c_gt] i4 r H4) as [j [E Hj]]. rewrite E.
+    exists j. simpl. auto.
+  - (* LOpen *)
+    intros name ws0 props wbody items IH [|f] s i r H Hwf Hf; [lia|].
+    simpl in Hwf. apply andb_true_iff in Hwf as [Hwf Hit]. apply andb_true_iff in Hwf as [Hh Hwb].
+    simpl in H. repeat (rewrite <- app_assoc in H; simpl in H).
+    destruct (node_head_app _ _ _ _ _ _ _ H Hh (or_intror eq_refl)) as [i1 [i2 [i3 [i4 [E1 [E2 [E3 [E4 H4]]]]]]]].
+    unfold parse_node. cbn [parse_node_with]. rewrite E1, E2, E3.
+    unfold props_loop in E4. rewrite E4.
+    rewrite (sfx_peek _ _ _ H4). simpl hd. simpl N.eqb. cbv iota.
+    destruct (consume_word_app s [c_gt] i4 _ H4) as [i5 [E5 H5]]. rewrite E5.
+    pose proof (sfx_len _ _ _ H) as L0. pose proof (sfx_len _ _ _ H5) as L5.
+    len_norm L0. len_norm L5.
+    destruct (IH f s i5 wbody name (pm_of props []) [] [] r true) as [j [E Hj]]; auto.
+    { apply wf_head_inv in Hh. tauto. }
+    { lia. }
+    fold (node_loop f s i5 name (pm_of props []) [] []). rewrite E. simpl. exists j. auto.
+  - (* INil *)
+    intros [|f] s i w name props content children r ta H Hw Hwf Hta Hn Hf; [lia|].
+    simpl in H. unfold node_loop. cbn [node_loop_with].
+    destruct (skip_whites_app _ _ _ _ H Hw) as [i1 [E1 H1]]; [reflexivity|]. rewrite E1.
+    rewrite (skip_comment_no _ _ _ H1) by reflexivity.
+    unfold w_close in H1. rewrite (sfx_peek _ _ _ H1). simpl hd. simpl N.eqb. cbv iota.
+    rewrite (sfx_peek1 _ _ _ _ H1). simpl hd. simpl N.eqb. cbv iota.
+    destruct (consume_word_app s [c_lt; c_slash] i1 _ H1) as [i3 [E3 H3]]. rewrite E3.
+    destruct (parse_identifier_app _ _ _ _ H3 Hn) as [i4 [E4 H4]]; [reflexivity|]. rewrite E4.
+    simpl opt_str. rewrite str_eqb_refl.
+    destruct (consume_word_app s [c_gt] i4 _ H4) as [i5 [E5 H5]]. rewrite E5.
+    exists i5. simpl. rewrite !app_nil_r. auto.
+  - (* IComment *)
+    intros body ws rest IH [|f] s i w name props content children r ta H Hw Hwf Hta Hn Hf; [lia|].
+    simpl in Hwf. apply andb_true_iff in Hwf as [Hwf Hr]. apply andb_true_iff in Hwf as [Hb Hws].
+    simpl in H. repeat (rewrite <- app_assoc in H; simpl in H).
+    unfold node_loop. cbn [node_loop_with].
+    destruct (skip_whites_app _ _ _ _ H Hw) as [i1 [E1 H1]]; [reflexivity|]. rewrite E1.
+    destruct (skip_comment_app _ _ _ _ H1 Hb) as [i2 [E2 H2]]. rewrite E2.
+    pose proof (sfx_len _ _ _ H) as L0. pose proof (sfx_len _ _ _ H2) as L2.
+    len_norm L0. len_norm L2.
+    apply (IH f s i2 ws name props content children r ta); auto. lia.
+  - (* IChild *)
+    intros n IHn ws rest IH [|f] s i w name props content children r ta H Hw Hwf Hta Hn Hf; [lia|].
+    simpl in Hwf. apply andb_true_iff in Hwf as [Hwf Hr]. apply andb_true_iff in Hwf as [Hnode Hws].
+    simpl in H. repeat (rewrite <- app_assoc in H; simpl in H).
+    destruct (render_node_head n Hnode) as [c [t [En Hc]]].
+    unfold node_loop. cbn [node_loop_with].
+    destruct (skip_whites_app _ _ _ _ H Hw) as [i1 [E1 H1]]; [rewrite En; reflexivity|]. rewrite E1.
+    rewrite (skip_comment_no _ _ _ H1).
+    2:{ rewrite En. simpl. apply id_start_not; [exact Hc | reflexivity]. }
+    rewrite (sfx_peek _ _ _ H1). rewrite En. simpl hd. simpl N.eqb. cbv iota.
+    assert (H1' : sfx s i1 (c_lt :: (c :: t) ++ ws ++ render_items rest ++ w_close name r))
+      by (rewrite En in H1; exact H1).
+    rewrite (sfx_peek1 _ _ _ _ H1'). simpl hd.
+    rewrite (id_start_not c c_slash Hc eq_refl).
+    pose proof (sfx_len _ _ _ H) as L0. pose proof (sfx_len _ _ _ H1) as L1.
+    len_norm L0. len_norm L1.
+    destruct (IHn f s i1 _ H1 Hnode) as [i3 [E3 H3]]; [lia|].
+    fold (parse_node f s i1). rewrite E3.
+    pose proof (sfx_len _ _ _ H3) as L3. len_norm L3.
+    assert (0 < length (render_node n)) by (rewrite En; simpl; lia).
+    destruct (IH f s i3 ws name props content (children ++ [node_of n]) r ta) as [j [E Hj]]; auto.
+    { lia. }
+    fold (node_loop f s i3 name props content (children ++ [node_of n])). rewrite E.
+    exists j. split; [|exact Hj]. simpl. rewrite <- app_assoc. reflexivity.
+  - (* IText *)
+    intros text trail rest IH [|f] s i w name props content children r ta H Hw Hwf Hta Hn Hf; [lia|].
+    simpl in Hwf. apply andb_true_iff in Hwf as [Hwf Hr]. apply andb_true_iff in Hwf as [Hwf Htr].
+    apply andb_true_iff in Hwf as [Hta' Htx]. subst ta. rewrite (Hta eq_refl) in *. clear Hta.
+    unfold text_okb in Htx. apply andb_true_iff in Htx as [Htx Hlast]. apply andb_true_iff in Htx as [Hfirst Hall].
+    destruct text as [|c0 text]; [discriminate|].
+    assert (Hc0 : not_stop c0 = true) by (simpl in Hall; apply andb_true_iff in Hall as [Hall _]; exact Hall).
+    simpl in H. repeat (rewrite <- app_assoc in H; simpl in H).
+    unfold node_loop. cbn [node_loop_with].
+    destruct (skip_whites_app _ _ _ _ H Hw) as [i1 [E1 H1]].
+    { simpl. destruct (is_white c0); [discriminate | reflexivity]. }
+    rewrite E1. unfold not_stop in Hc0.
+    rewrite (skip_comment_no _ _ _ H1) by (simpl; destruct (c0 =? c_lt)%N; [discriminate | reflexivity]).
+    rewrite (sfx_peek _ _ _ H1). simpl hd.
+    destruct (c0 =? c_lt)%N eqn:Elt; [discriminate|]. destruct (c0 =? 0)%N eqn:Ez; [discriminate|].
+    simpl is_nil. cbv iota. simpl negb. cbv iota.
+    destruct (hd_items_lt rest (c_slash :: name ++ c_gt :: r) Hr) as [t' Et].
+    assert (H1' : sfx s i1 (((c0 :: text) ++ trail) ++ c_lt :: t')).
+    { rewrite <- Et. repeat (rewrite <- app_assoc; simpl). exact H1. }
+    destruct (content_scan_app s _ (fuel_at s i1) i1 _ H1') as [e [Ee He]].
+    { rewrite forallb_app. change (forallb not_stop (c0 :: text)) with
+        (forallb (fun c => negb (c =? c_lt)%N && negb (c =? 0)%N) (c0 :: text)). rewrite Hall. simpl.
+      eapply forallb_imp; [|exact Htr]. apply space_not_stop. }
+    { reflexivity. }
+    { apply sfx_len in H1'. rewrite app_length in H1'. unfold fuel_at. lia. }
+    rewrite Ee.
+    assert (H1'' : sfx s i1 ((c0 :: text) ++ trail ++ c_lt :: t')) by (rewrite <- app_assoc in H1'; exact H1').
+    destruct (trim_end_app s i1 (c0 :: text) e trail _ e H1'' He) as [e' [Ee' He']]; auto.
+    { discriminate. }
+    { destruct (is_space (last (c0 :: text) 0%N)); [discriminate | reflexivity]. }
+    rewrite Ee'.
+    rewrite (make_string_app s i1 e' (c0 :: text) _ e H1'' He').
+    2:{ unfold nz. eapply forallb_imp; [|exact Hall]. intros a Ha. apply andb_true_iff in Ha as [_ Ha]. exact Ha. }
+    pose proof (sfx_len _ _ _ H) as L0. pose proof (sfx_len _ _ _ He) as Le. pose proof (sfx_len _ _ _ H1') as L1.
+    pose proof (sfx_len _ _ _ H1) as L1o. len_norm L0. len_norm L1. len_norm Le. len_norm L1o.
+    assert (Het : sfx s e ([] ++ render_items rest ++ w_close name r)).
+    { simpl. unfold w_close. rewrite Et. exact He. }
+    destruct (IH f s e [] name props (c0 :: text) children r false Het) as [j [E Hj]]; auto.
+    { intro; discriminate. }
+    { lia. }
+    fold (node_loop f s e name props (c0 :: text) children). rewrite E.
+    exists j. split; [|exact Hj]. reflexivity.
+Qed.
+
+Lemma parse_node_app n fuel s i r :
+  sfx s i (render_node n ++ r) -> wf_node n = true -> 2 * (length s - i) + 1 <= fuel ->
+  exists j, parse_node fuel s i = Ok (node_of n) j /\ sfx s j r.
+Proof. apply (proj1 node_app). Qed.
+
+(* ------------------------------------------------------------- parseHeader *)
+Lemma white_not c w : is_white c = true -> is_white w = false -> (c =? w)%N = false.
+Proof. intros H1 H2. apply N.eqb_neq. intros ->. congruence. Qed.
+
+Lemma parse_header_app s i h r :
+  sfx s i (render_header h ++ r) -> wf_header h = true -> h <> HNone ->
+  exists j, parse_header s i = Ok true j /\ sfx s j r.
+Proof.
+  intros H Hwf Hh. unfold parse_header, parse_header_with.
+  destruct h as [| | w ws props]; [congruence | |]; unfold render_header in H; rewrite <- app_assoc in H;
+    destruct (consume_word_app s w_xml_open i _ H) as [i1 [E1 H1]]; rewrite E1.
+  - simpl in H1. rewrite (sfx_peek _ _ _ H1). simpl hd. simpl N.eqb. cbv iota.
+    rewrite (sfx_peek1 _ _ _ _ H1). simpl hd. simpl N.eqb. cbv iota.
+    destruct (consume_word_app s w_qgt i1 r H1) as [i2 [E2 H2]]. rewrite E2. exists i2. auto.
+  - simpl in Hwf. apply andb_true_iff in Hwf as [Hwf Hps]. apply andb_true_iff in Hwf as [Hw Hws].
+    simpl in H1. repeat (rewrite <- app_assoc in H1; simpl in H1).
+    rewrite (sfx_peek _ _ _ H1). simpl hd. rewrite (white_not w c_qm Hw eq_refl), Hw.
+    pose proof (sfx_cons _ _ _ _ H1) as H1'.
+    destruct (skip_whites_app _ _ _ _ H1' Hws) as [i2 [E2 H2]].
+    { apply hd_props; auto. apply id_start_not_white. }
+    rewrite E2.
+    destruct (props_loop_app_at _ _ _ [] _ H2 Hps) as [i3 [E3 H3]]; auto.
+    unfold props_loop in E3. rewrite E3.
+    destruct (consume_word_app s w_qgt i3 r H3) as [i4 [E4 H4]]. rewrite E4. exists i4. auto.
+Qed.
+
+(* ---------------------------------------------------------------- parseXML *)
+Lemma hd_items_not_white its :
+  wf_items false its = true -> is_white (hd0 (render_items its)) = false.
+Proof.
+  destruct its as [|b ws r|n ws r|t tr r]; simpl; intro H; auto.
+  - apply andb_true_iff in H as [H _]. apply andb_true_iff in H as [H _].
+    destruct (render_node_head n H) as [c [t [-> _]]]. reflexivity.
+  - discriminate.
+Qed.
+
+Lemma top_loop_app : forall its fuel s i children,
+  sfx s i (render_items its) -> wf_items false its = true -> 2 * (length s - i) + 3 <= fuel ->
+  exists j, top_loop fuel s i children = Ok (children ++ children_of its) j /\ sfx s j [].
+Proof.
+  induction its as [| | |body ws rest IH|n _ ws rest IH|text trail rest IH]
+    using litems_ind2 with (P := fun _ => True); auto;
+    intros [|f] s i children H Hwf Hf; try lia; unfold top_loop; cbn [top_loop_with].
+  - simpl in H. rewrite (sfx_peek _ _ _ H). simpl. exists i. rewrite app_nil_r. auto.
+  - simpl in Hwf. apply andb_true_iff in Hwf as [Hwf Hr]. apply andb_true_iff in Hwf as [Hb Hws].
+    simpl in H. rewrite (sfx_peek _ _ _ H). simpl hd. simpl N.eqb. cbv iota.
+    destruct (skip_comment_app _ _ _ _ H Hb) as [i1 [E1 H1]]. rewrite E1.
+    destruct (skip_whites_app _ _ _ _ H1 Hws) as [i2 [E2 H2]]; [apply hd_items_not_white; exact Hr|].
+    rewrite E2. pose proof (sfx_len _ _ _ H) as L. pose proof (sfx_len _ _ _ H2) as L2.
+    len_norm L. len_norm L2.
+    apply IH; auto. lia.
+  - simpl in Hwf. apply andb_true_iff in Hwf as [Hwf Hr]. apply andb_true_iff in Hwf as [Hn Hws].
+    simpl in H. destruct (render_node_head n Hn) as [c [t [En Hc]]].
+    rewrite (sfx_peek _ _ _ H). rewrite En. simpl hd. simpl N.eqb. cbv iota.
+    rewrite (skip_comment_no _ _ _ H).
+    2:{ rewrite En. simpl. apply id_start_not; [exact Hc | reflexivity]. }
+    destruct (parse_node_app n f s i _ H Hn) as [i2 [E2 H2]]; [lia|].
+    fold (parse_node f s i). rewrite E2.
+    destruct (skip_whites_app _ _ _ _ H2 Hws) as [i3 [E3 H3]]; [apply hd_items_not_white; exact Hr|].
+    rewrite E3. pose proof (sfx_len _ _ _ H) as L. pose proof (sfx_len _ _ _ H3) as L3.
+    rewrite En in L. len_norm L. len_norm L3.
+    destruct (IH f s i3 (children ++ [node_of n]) H3 Hr) as [j [E Hj]]; [lia|].
+    fold (top_loop f s i3 (children ++ [node_of n])). rewrite E. exists j. split; [|exact Hj].
+    simpl. rewrite <- app_assoc. reflexivity.
+  - discriminate.
+Qed.
+
+Lemma parse_xml_no_header pstr fuel s :
+  (hd0 s =? c_lt)%N && (hd0 (tl s) =? c_qm)%N = false ->
+  parse_xml_with pstr fuel s =
+  match skip_whites s 0 with
+  | Ok _ i1 => match top_loop_with pstr fuel s i1 [] with
+               | Ok ch i2 => Ok (Node [] [] [] ch) i2
+               | Throw => Throw | OOB => OOB | OutOfFuel => OutOfFuel
+               end
+  | Throw => Throw | OOB => OOB | OutOfFuel => OutOfFuel
+  end.
+Proof.
+  intro Hs. unfold parse_xml_with. rewrite (sfx_peek s 0 s (sfx_0 s)).
+  destruct (hd0 s =? c_lt)%N eqn:E; [|reflexivity].
+  destruct s as [|c s']; [discriminate|]. rewrite (sfx_peek1 _ 0 c s' (sfx_0 _)).
+  simpl in Hs. rewrite Hs. reflexivity.
+Qed.
+
+Lemma parse_xml_header pstr fuel t j :
+  let s := c_lt :: c_qm :: t in
+  parse_header_with pstr s 0 = Ok true j ->
+  parse_xml_with pstr fuel s =
+  match skip_whites s j with
+  | Ok _ i1 => match top_loop_with pstr fuel s i1 [] with
+               | Ok ch i2 => Ok (Node [] [] [] ch) i2
+               | Throw => Throw | OOB => OOB | OutOfFuel => OutOfFuel
+               end
+  | Throw => Throw | OOB => OOB | OutOfFuel => OutOfFuel
+  end.
+Proof.
+  intros s E. unfold parse_xml_with. rewrite (sfx_peek s 0 s (sfx_0 s)).
+  unfold s at 1. simpl hd. simpl N.eqb. cbv iota.
+  rewrite (sfx_peek1 s 0 c_lt (c_qm :: t) (sfx_0 _)). simpl hd. simpl N.eqb. cbv iota.
+  rewrite E. reflexivity.
+Qed.
+
+Lemma no_header_start ws its :
+  forallb is_white ws = true -> wf_items false its = true ->
+  let s := ws ++ render_items its in
+  (hd0 s =? c_lt)%N && (hd0 (tl s) =? c_qm)%N = false.
+Proof.
+  intros Hws Hit. destruct ws as [|a ws]; simpl.
+  - destruct its as [|b w r|n w r|t tr r]; simpl in *; auto.
+    + apply andb_true_iff in Hit as [H _]. apply andb_true_iff in H as [H _].
+      destruct (render_node_head n H) as [c [t [-> Hc]]]. simpl.
+      apply id_start_not; [exact Hc | reflexivity].
+    + discriminate.
+  - simpl in Hws. apply andb_true_iff in Hws as [Ha _].
+    rewrite (white_not a c_lt Ha eq_refl). reflexivity.
+Qed.
+
+Lemma body_app s i ws its :
+  sfx s i (ws ++ render_items its) -> forallb is_white ws = true -> wf_items false its = true ->
+  match skip_whites s i with
+  | Ok _ i1 => match top_loop (doc_fuel s) s i1 [] with
+               | Ok ch i2 => Ok (Node [] [] [] ch) i2
+               | Throw => Throw | OOB => OOB | OutOfFuel => OutOfFuel
+               end
+  | Throw => Throw | OOB => OOB | OutOfFuel => OutOfFuel
+  end = Ok (Node [] [] [] (children_of its)) (length s).
+Proof.
+  intros H Hws Hit.
+  destruct (skip_whites_app _ _ _ _ H Hws) as [i1 [E1 H1]]; [apply hd_items_not_white; exact Hit|].
+  rewrite E1.
+  destruct (top_loop_app its (doc_fuel s) s i1 [] H1 Hit) as [j [E Hj]]; [unfold doc_fuel; lia|].
+  rewrite E. simpl. rewrite (sfx_nil _ _ Hj). reflexivity.
+Qed.
+
+(* ------------------------------------------------------------ the theorem *)
+Lemma render_header_start h rest :
+  h <> HNone -> exists t, render_header h ++ rest = c_lt :: c_qm :: t.
+Proof. destruct h; [congruence | |]; intros _; simpl; eauto. Qed.
+
+Lemma parse_with_header h ws its :
+  h <> HNone -> wf_header h = true -> forallb is_white ws = true -> wf_items false its = true ->
+  parse (render_header h ++ ws ++ render_items its)
+  = Ok (Node [] [] [] (children_of its)) (length (render_header h ++ ws ++ render_items its)).
+Proof.
+  intros Hne Hh Hws Hit.
+  destruct (render_header_start h (ws ++ render_items its) Hne) as [t Et].
+  destruct (parse_header_app (render_header h ++ ws ++ render_items its) 0 h (ws ++ render_items its)
+              (sfx_0 _) Hh Hne) as [j [E Hj]].
+  revert E Hj. rewrite Et. intros E Hj. unfold parse.
+  rewrite (parse_xml_header parse_string _ t j E). apply (body_app _ j ws its); auto.
+Qed.
+
+Lemma parse_render d :
+  wf_doc d = true -> parse (render_doc d) = Ok (doc_of d) (length (render_doc d)).
+Proof.
+  destruct d as [h ws its]. unfold wf_doc, render_doc, doc_of. simpl.
+  intro H. apply andb_true_iff in H as [H Hit]. apply andb_true_iff in H as [Hh Hws].
+  destruct h as [| | w hws props].
+  - unfold parse. simpl render_header. simpl app.
+    rewrite parse_xml_no_header by (apply no_header_start; auto).
+    apply (body_app _ 0 ws its); auto. apply sfx_0.
+  - apply parse_with_header; auto. discriminate.
+  - apply parse_with_header; auto. discriminate.
 Qed.
